@@ -347,7 +347,6 @@ def estimates_of(t, cont):
 
 def compare_fresh(chk, t, snap, eff, case):
     """history independence of the targeting step: same numbers as a fresh object with the last specification"""
-    chk = _Sig(chk, signature_of(snap))
     fresh_cfg = dict(eff, order='gmq')
     try:
         f = fit_tmle(snap.copy(deep=True), fresh_cfg)
@@ -367,38 +366,7 @@ def compare_fresh(chk, t, snap, eff, case):
           'the last specification', dict(case, differs=bad, history=a, fresh=b))
 
 
-class _Sig:
-    """`chk` with the known-finding signature of the case attached to every D predicate (K, counters untouched)"""
-
-    def __init__(self, chk, signature):
-        self._chk, self._sig = chk, signature
-
-    def __getattr__(self, k):
-        return getattr(self._chk, k)
-
-    def d(self, ok, what, case, signature=None):
-        return self._chk.d(ok, what, case, signature=signature or self._sig)
-
-    def k(self, ok, what, case):
-        # on an input class recorded as a known finding the model (what the code should do) and the code are known to
-        # differ; the correspondence is not judged there (counted), D carries the finding
-        import common
-        if self._sig is not None and common.match_known(self._chk.pid, self._sig) is not None:
-            self._chk.count('K not judged on known-finding input')
-            return None
-        return self._chk.k(ok, what, case)
-
-
-def signature_of(snap):
-    """an exposure column of an unsigned numpy integer dtype: `-(1 - A)` wraps around in TMLE.fit (genuine defect of
-    /repo, reported; see known_findings.json).  Exactly this input class is marked, nothing else."""
-    if str(snap['A'].dtype).startswith('uint'):
-        return {'estimator': 'TMLE', 'exposure_dtype': 'unsigned'}
-    return None
-
-
 def evaluate_tmle(chk, drv, t, snap, cfg, case):
-    chk = _Sig(chk, signature_of(snap))
     n = len(snap)
     p = t._verif_probe_
     cont = cfg['outcome'] == 'continuous'
@@ -621,6 +589,8 @@ def gen_cf(dseed, cfg):
         y = (r.uniform(size=n) < truth).astype(float)
     else:
         y = np.clip(truth + r.normal(0, 0.15, n), 0.0005, 0.9995)
+    if cfg.get('adtype'):
+        a = a.astype(cfg['adtype'])
     return dict(y=y, a=a, py_a=py_a, py_n=py_n, pa1=pa1, pa0=1 - pa1, splits=splits)
 
 
@@ -740,6 +710,7 @@ def check_cf_direct(chk, drv, cfg, dseed):
     moved = all(abs(q['epsilon'][0]) > 1e-6 and abs(q['epsilon'][1]) > 1e-6 for q in probes)
     chk.case(case, ('cf', repr(sorted(cfg.items(), key=str)), dseed) if moved else None)
     chk.count('crossfit_direct_%s_k%d' % (cfg['outcome'], cfg['k']))
+    chk.count('crossfit adtype=%s' % cfg.get('adtype'))
     eval_targeting(chk, drv, case, kw, out, probes,
                    cont_range=(cfg['lo'], cfg['hi']) if cfg['outcome'] == 'continuous' else None)
 
@@ -751,7 +722,8 @@ def check_cf_estimator(chk, drv, cfg, dseed):
     from zepid.causal.doublyrobust import SingleCrossfitTMLE, DoubleCrossfitTMLE
     from zepid.superlearner import GLMSL
     mod = crossfit_module()
-    dcfg = dict(outcome=cfg['outcome'], missing='none', xcont=True, nlo=cfg['nlo'], nhi=cfg['nhi'])
+    dcfg = dict(outcome=cfg['outcome'], missing='none', xcont=True, nlo=cfg['nlo'], nhi=cfg['nhi'],
+                adtype=cfg.get('adtype'), index='range')
     df = gen_data(dseed, dcfg).reset_index(drop=True)
     case = {'kind': cfg['estimator'], 'cfg': cfg, 'dseed': dseed, 'n': len(df)}
     binom = sm.families.family.Binomial()
@@ -786,6 +758,7 @@ def check_cf_estimator(chk, drv, cfg, dseed):
         del mod._VERIF_PROBE_[:]
     chk.case(case, ('cfe', repr(sorted(cfg.items(), key=str)), dseed) if not err else None)
     chk.count('crossfit_%s_%s' % (cfg['estimator'], cfg['outcome']))
+    chk.count('crossfit adtype=%s' % cfg.get('adtype'))
     if err is not None:
         chk.d(False, '%s raised on an admissible data set: %s' % (cfg['estimator'], err), case)
         return
@@ -879,7 +852,7 @@ def data_options(rng, outcome, missing, xcont, tier, plain=False):
              nlo=150, nhi=400 if tier == 'quick' else 900,
              cb=float(rng.choice([0.0005, 0.02])) if outcome == 'continuous' else None)
     if not plain:
-        d.update(adtype=str(rng.choice(['int64', 'int64', 'int8', 'uint8', 'float64', 'int32'])),
+        d.update(adtype=str(rng.choice(['int64', 'int64', 'int8', 'uint8', 'uint16', 'float64', 'int32'])),
                  wdtype=str(rng.choice(['int64', 'int16', 'float32'])),
                  index=str(rng.choice(['range', 'shifted', 'even', 'string', 'repeated'])))
     return d
@@ -953,7 +926,8 @@ def run(chk, drv, rng, tier):
             for gclip in (None, (0.1, 0.9), (0.3, 0.6)):
                 for _ in range(reps):
                     cfg = dict(outcome=outcome, k=k, gclip=gclip, nlo=60, nhi=200 if tier == 'quick' else 500,
-                               lo=-3.5, hi=41.25)
+                               lo=-3.5, hi=41.25,
+                               adtype=str(rng.choice(['float64', 'int64', 'uint8', 'uint16', 'int8'])))
                     check_cf_direct(chk, drv, cfg, int(rng.integers(0, 2 ** 31 - 1)))
     # cross-fit estimators end to end
     reps = 2 if tier == 'quick' else 12
@@ -964,7 +938,7 @@ def run(chk, drv, rng, tier):
                     for _ in range(reps):
                         gb = None if rng.uniform() < 0.5 else [0.2, 0.7]
                         cfg = dict(estimator=estimator, outcome=outcome, learner=learner, k=k, gbound=gb, nlo=300,
-                                   nhi=600)
+                                   nhi=600, adtype=str(rng.choice(['int64', 'uint8', 'uint16', 'int8', 'float64'])))
                         check_cf_estimator(chk, drv, cfg, int(rng.integers(0, 2 ** 31 - 1)))
     check_unit_exact(chk, drv, rng, 40 if tier == 'quick' else 400)
     chk.extra['exhaustive'] = False
